@@ -514,6 +514,14 @@ impl Sim {
         roles.push(m.factory.clone());
         roles.push(m.router.clone());
         roles.push(m.rogue.clone());
+        if let Some(b) = m.bystanders.first() {
+            roles.push(b.clone());
+        }
+        roles.push("freshcaller".to_string());
+        for p in m.pairs.iter().take(2) {
+            // accounts named in the pair's own configuration
+            roles.extend(p.whitelist.iter().take(2).cloned());
+        }
         for p in m.pairs.iter().take(3) {
             roles.push(p.addr.clone());
             roles.push(p.lp.clone());
